@@ -17,6 +17,7 @@ def main(argv=None) -> int:
     ap.add_argument("--replay")
     a = ap.parse_args(argv)
     prop = a.prop.upper()
+    os.environ["VERIF_TIER"] = a.tier  # the parallel-map wall budget depends on the tier
     try:
         mod = importlib.import_module(f"vf.props.{prop.lower()}")
     except ModuleNotFoundError:
